@@ -149,6 +149,12 @@ def evaluate(c, fn, names, shapes, combo):
         if inspect.isgenerator(result):
             result = tuple(result)
     except Exception as e:  # noqa
+        if isinstance(e, AttributeError) and getattr(e, 'obj', None) is not None:
+            # a field the contract's shape does not describe (objects are built field by field, without
+            # running __init__): the scope cannot evaluate this input; undecided, not a violation
+            for n, sh in zip(names, shapes):
+                if isinstance(sh, S.Obj) and e.obj is env.get(n) and e.name not in sh.allfields():
+                    return 'skip', f'shape lacks field {e.name}'
         for exc, cond in c.raises.items():
             if exc_matches(e, exc):
                 e2 = dict(env)
